@@ -12,6 +12,7 @@ from .numpy_vjps import (
     match_complex,
     nograd_functions,
     replace_zero,
+    resolve_order,
     tensordot_adjoint_0,
     tensordot_adjoint_1,
     untake,
@@ -85,14 +86,14 @@ defjvp(anp.rad2deg, "same")
 defjvp(anp.degrees, "same")
 defjvp(anp.deg2rad, "same")
 defjvp(anp.radians, "same")
-defjvp(anp.reshape, "same")
+defjvp(anp.reshape, lambda g, ans, x, shape, order=None: anp.reshape(g, shape, order=resolve_order(x, order)))
 defjvp(anp.roll, "same")
 defjvp(anp.array_split, "same")
 defjvp(anp.split, "same")
 defjvp(anp.vsplit, "same")
 defjvp(anp.hsplit, "same")
 defjvp(anp.dsplit, "same")
-defjvp(anp.ravel, "same")
+defjvp(anp.ravel, lambda g, ans, x, order=None: anp.ravel(g, order=resolve_order(x, order)))
 defjvp(anp.expand_dims, "same")
 defjvp(anp.squeeze, "same")
 defjvp(anp.diag, "same")
